@@ -1,8 +1,8 @@
 (** Executable monitors for the mirror properties (C01, C04, C05, C07), evaluated on the
     IMPLEMENTATION's observations (trees printed by harness/mirror).  Layout of one observation:
       obs  = TL [voting view; committing view; nhr; committed headers; round store]
-      view = TL [h; r; pkh; vph; keys; pows; proposal hashes; prevotes; precommits; summary; prev commit proof]
-      hdr  = TL [h; hash; prev hash; next pkh; next vph; next keys; next pows; commit proof]
+      view = TL [h; r; pkh; vph; keys; pows; proposal hashes; prevotes; precommits; summary; prev commit proof; lists-match-hashes]
+      hdr  = TL [h; hash; prev hash; next pkh; next vph; next keys; next pows; commit proof; next-lists-match-hashes]
       commit proof = TL [round; pkh; TL [TL [hash; TL [TL [key id; sig]]]]]
       sig  = TL [0; key; kind; h; r; target] | TL [1; key; hash; r] | TL [2; n]                  *)
 From Coq Require Import List NArith Bool.
@@ -107,6 +107,10 @@ Fixpoint c04_trace_ok (init_h : N) (prev : option tr) (l : list tr) : bool :=
 (** * C07: the voting validator set is genesis or the committed header's next set *)
 Definition c07_obs_ok (genesis : tr) (o : tr) : bool :=
   let vot := nth_tr o 0 in
+  (* the set in use and every committed next set have lists matching their hashes (flag computed
+     by the harness with the real hash scheme) *)
+  (tn (nth_tr vot 11) =? 1) &&
+  forallb (fun e => tn (nth_tr e 8) =? 1) (tls (nth_tr o 3)) &&
   let cur := TL [nth_tr vot 2; nth_tr vot 3; nth_tr vot 4; nth_tr vot 5] in
   match rev (tls (nth_tr o 3)) with
   | [] => tr_eqb cur genesis
